@@ -1227,7 +1227,8 @@ pub fn c04(_class: &str, seed: u64, p: &Params) -> Out {
 
 pub fn run(workload: &str, class: &str, seed: u64, p: &Params) -> RunResult {
     let t0 = std::time::Instant::now();
-    let o = match workload {
+    // A panic inside the code under test must become a verdict, not a dead worker.
+    let caught = std::panic::catch_unwind(std::panic::AssertUnwindSafe(|| match workload {
         "c17" => c17(class, seed, p),
         "c18" => c18(class, seed, p),
         "c20" => c20(class, seed, p),
@@ -1235,6 +1236,30 @@ pub fn run(workload: &str, class: &str, seed: u64, p: &Params) -> RunResult {
         "c19" => c19(class, seed, p),
         "c04" => c04(class, seed, p),
         _ => unreachable!(),
+    }));
+    let o = match caught {
+        Ok(o) => o,
+        Err(_) => {
+            let mut o = Out::new();
+            o.cases = 1;
+            let prop: &'static str = match workload {
+                "c17" => "C17",
+                "c18" => "C18",
+                "c20" => "C20",
+                "c09" => "C09",
+                "c19" => "C19",
+                _ => "C04",
+            };
+            let panics = crate::evlog::take_panics();
+            let (loc, msg) = panics.last().map(|p| (p.0.clone(), p.1.clone())).unwrap_or_default();
+            let in_harness = loc.starts_with("src/");
+            if in_harness {
+                o.report.inconclusive.push(format!("{}: the harness itself panicked at {}: {}", prop, loc, msg));
+            } else {
+                o.report.violate(prop, format!("panic-in-code-under-test@{}", loc.replace("/verif/repo/", "")), format!("the component panicked: {}", msg), vec![]);
+            }
+            o
+        }
     };
     let mut report = o.report;
     for (loc, msg, th) in crate::evlog::take_panics() {
